@@ -36,4 +36,14 @@ TEXT = {
   "level_text": "One call per case over raw/json/pb/http and the two websocket sub-protocols (real HTTP upgrade over the in-memory transport), body codecs json/xml/form: the cause of the outcome is generated (handler OK/any status, 404, 400, panic, server veto per stage, caller veto before write and per reply stage, cut while the handler runs, result-type mismatch) and the observed (code,msg,cause) at accessor level is compared with a small model; whether a mismatching result type must fail is decided by the codec alone.",
   "level_note": "protobuf/thrift body codecs are covered by C01/C11, not by this matrix; thrift wire protocols are covered in the thrift binary for round-trip only.",
  },
+ "C09": {
+  "technique": "property-based plugin arrangements against a reference model of the hook trace (rapid)",
+  "level_text": "Generated plugin arrangements (global left/right, nested router groups, handler-level, late global attachment; generated stage subsets; at most one veto) with calls and pushes to handlers at generated nesting depth; the exact ordered hook trace on both peers, the caller-visible status, 'nothing written after a pre-write veto' and 'handler not run after a veto' are compared with a reference model; a graceful close is the final barrier against late extra hooks.",
+  "level_note": "PreReadHeader hooks are not compared (no message to attribute them to). Messages are issued one at a time so traces can be attributed exactly.",
+ },
+ "C10": {
+  "technique": "property-based router programs over a handler library + mapper function properties (rapid)",
+  "level_text": "Router programs (mapper x SubRoute tree x registrations from a library of 9 controller structs / 11 functions with the documented identifier shapes and deliberate collisions x unknown handlers) are built on a real peer; every returned name, its twin in the other namespace, near-misses and random names are requested and the set of handlers that ran is compared with the model after every request and at quiescence; predicted collisions must be reported. The mapper is checked literally against the documented table, against word-template instances of it, and for determinism/totality on arbitrary identifier strings.",
+  "level_note": "Expected names use the public mapper functions; handler programs are limited to the library.",
+ },
 }
